@@ -293,6 +293,67 @@ func (g *gen) scenario(id, k int) {
 				g.nextBlock(20, 1)
 			}
 		}
+	case 8:
+		// read markers of one client on one (blobber, allocation) pair, played to the end: genuine reads, a read
+		// dearer than what is left in a non-empty read pool, a never-signed higher counter carrying the stored
+		// signature of the last redeemed marker, an older counter, a replay, and a read on an emptied pool
+		var rb *prov
+		perRead := uint64(0)
+		for _, b := range g.allocBlobbers(a1) {
+			if ba := findBA(findAlloc(g.prev, a1.id), b.key.ID); ba != nil && ba.ReadPrice >= 16384 {
+				rb, perRead = b, ba.ReadPrice/16384
+				break
+			}
+		}
+		if rb == nil {
+			break
+		}
+		client := g.clients[2]
+		key := [3]string{rb.key.ID, client.ID, a1.id}
+		if ks := key[0] + key[1] + key[2]; !g.readKeySet[ks] { // the snapshot reads the counters of the registered keys
+			g.readKeySet[ks] = true
+			g.readKeys = append(g.readKeys, key)
+		}
+		g.do(client, "read_pool_unlock", map[string]interface{}{}, 0, opInfo{variant: "unlock"})
+		g.do(client, "read_pool_lock", map[string]interface{}{}, perRead*7+1, opInfo{variant: "lock"})
+		last := int64(0)
+		for _, c := range g.prev.ReadCtrs {
+			if c.Blobber == rb.key.ID && c.Client == client.ID && c.Allocation == a1.id && c.Present {
+				last = c.Counter
+			}
+		}
+		lastSig, lastTS := "", int64(0)
+		read := func(ctr int64, variant, reuse string) {
+			ts := int64(w.Now)
+			in := g.readMarkerInput(a1, rb, client, client, client.Pub, ctr, ts)
+			rm := in["read_marker"].(map[string]interface{})
+			sigOK := true
+			if reuse != "" {
+				rm["signature"], sigOK = reuse, false
+				if g.chance(50) {
+					rm["timestamp"] = lastTS
+				}
+			}
+			res := g.do(rb.key, "read_redeem", in, 0, opInfo{variant: variant, target: a1.id, tblob: rb.key.ID,
+				rmClient: client.ID, rmBlobber: rb.key.ID, rmAlloc: a1.id, rmCtr: ctr, rmSig: sigOK})
+			if res.Class == "ok" && sigOK {
+				lastSig, lastTS = rm["signature"].(string), ts
+			}
+		}
+		read(last+2, "scen-fresh", "") // 2 reads: pool 7p+1 -> 5p+1
+		read(last+5, "scen-fresh", "") // 3 more: -> 2p+1
+		g.nextBlock(5, 1)
+		if lastSig != "" {
+			read(last+6, "scen-reusedsig", lastSig) // never signed by the client
+		}
+		read(last+9, "scen-short", "") // 4 reads, dearer than what is left (2p+1 > 0): refused, nothing credited
+		read(last+3, "scen-older", "")
+		read(last+5, "scen-replay", "")
+		read(last+7, "scen-fresh", "") // 2 more: -> 1
+		g.nextBlock(5, 1)
+		read(last+8, "scen-short", "") // 1 read against a pool holding 1 token
+		g.do(client, "read_pool_unlock", map[string]interface{}{}, 0, opInfo{variant: "unlock"})
+		read(last+8, "scen-empty", "")
 	case 3:
 		b := g.blobbers[3] // serves no allocation
 		g.do(b.delegate, "shutdown_blobber", map[string]interface{}{"provider_id": b.key.ID}, 0, opInfo{variant: "delegate", tblob: b.key.ID})
